@@ -45,6 +45,7 @@ def main():
     ap.add_argument("--jobs", type=int, default=3)
     ap.add_argument("--out", default=os.path.join(HERE, "SENSITIVITY.md"))
     ap.add_argument("--merge", action="store_true", help="with --only: replace the rows of those properties in sensitivity_results.json and rewrite the table")
+    ap.add_argument("--rounds", default="", help="only seeded changes of these rounds (suffix letters, '-' for the first round), e.g. g,h,i,j; own mutants are skipped; implies no table rewrite unless --merge")
     ap.add_argument("--harvest", action="store_true", help="copy one counter-example per caught seeded change into replays/<ID>/seeded_<name>.json")
     a = ap.parse_args()
     global HARVEST
@@ -56,12 +57,15 @@ def main():
         if only and pid not in only:
             continue
         for f in sorted(glob.glob(os.path.join(d, "*.diff"))):
-            items.append((pid, "own", f, a.tier))
+            if not a.rounds:
+                items.append((pid, "own", f, a.tier))
     for d in sorted(glob.glob(os.path.join(HERE, "seeded", "C*"))):
         pid = os.path.basename(d)[:3]
         if only and pid not in only:
             continue
         f = os.path.join(d, "patch.diff")
+        if a.rounds and (os.path.basename(d)[3:] or "-") not in a.rounds.split(","):
+            continue
         if os.path.exists(f):
             try:        # a seeded change may be assigned to the check of a neighbouring property (stated in its meta.json)
                 pid = json.load(open(os.path.join(d, "meta.json"))).get("checked_by", pid)
@@ -77,12 +81,17 @@ def main():
     missed = [r for r in rows if r[3] != 1]
     # results are kept as JSON next to the table, so that a later run restricted to some properties (--only ... --merge) can replace just their rows
     store = os.path.join(HERE, "sensitivity_results.json")
-    if a.merge and only and os.path.exists(store):
+    partial = bool(only) or bool(a.rounds)
+    if a.merge and partial and os.path.exists(store):
         old_rows = [tuple(r) for r in json.load(open(store))["rows"]]
         new_paths = set(os.path.relpath(r[2], HERE) for r in rows)
-        keep = [(pid, kind, os.path.join(HERE, path), rc, keys) for pid, kind, path, rc, keys in old_rows if pid not in only and path not in new_paths]
+        keep = [(pid, kind, os.path.join(HERE, path), rc, keys) for pid, kind, path, rc, keys in old_rows
+                if path not in new_paths and not (only and not a.rounds and pid in only)]
         rows = sorted(keep + rows, key=lambda r: (r[0], r[1], r[2]))
         only = set()
+        partial = False
+    if partial:
+        only = only or {"partial"}
     if not only:
         json.dump({"tier": a.tier, "rows": [[pid, kind, os.path.relpath(path, HERE), rc, keys[:2]] for pid, kind, path, rc, keys in rows]}, open(store, "w"), indent=0)
     missed_all = [r for r in rows if r[3] != 1]
